@@ -111,6 +111,24 @@ pub fn run(ctx: &mut Ctx) {
                     }
                 }
             }
+            // Boolean view with argument lists that mention variables repeatedly (the last value counts)
+            for (seq, a) in super::c02::arg_lists(n, if ctx.thorough() { 6 } else { 5 }) {
+                for (t, f) in fns.iter().enumerate() {
+                    let t = t as Tab;
+                    ctx.count("evaluations", 1);
+                    if nt(t) {
+                        ctx.count("nontrivial", 1);
+                    }
+                    let got = f.eval(seq.iter().copied());
+                    if got != model::bit(t, a) {
+                        ctx.viol(
+                            attrs(&[("kind", "zbdd"), ("op", "eval_args"), ("class", "wrong_value")]),
+                            case(n, &order, "eval_args", &[t, a as Tab], model::bit(t, a) as Tab, &format!("{seq:?} -> {got}")),
+                            &format!("zbdd eval of family {t:#x} with arguments {seq:?} (last value counts: set {a:#b}) = {got}"),
+                        );
+                    }
+                }
+            }
             ctx.sample(|| case(n, &order, "change", &[0x16, 1], model::fam_change(0x16, 1, n), "-"));
         }),
         "union" | "intsec" | "diff" => {
